@@ -11,7 +11,12 @@ def literal(rng, kind=None):
     kind = kind if kind is not None else rng.randrange(7)
     if kind == 6:
         # literals that look like syntax: punctuation next to blanks, comment signs, keywords
-        s = rng.choice([" ;", "a ; b", "x ;", "; ", "{ }", " { ", " #c", "# x", "set", " set uri ", "}", ";;", "  ", "a  b", "print;"])
+        s = rng.choice([" ;", "a ; b", "x ;", "; ", "{ }", " { ", " #c", "# x", "set", " set uri ", "}", ";;", "  ", "a  b", "print;",
+                        None, None, None])
+        if s is None:
+            # escaped quotes / backslashes at the edges of the literal
+            return rng.choice([('"\\"q\\""', b'"q"'), ('"a\\""', b'a"'), ('"\\""', b'"'), ('"\\\\"', b"\\"), ('"x\\\\"', b"x\\"),
+                               ('"\\\'a\\\'"', b"'a'")])
         return '"' + s + '"', s.encode()
     if kind == 0:
         s = "".join(rng.choice("abcXYZ019 /._-=:;{}#%&?") for _ in range(rng.randrange(0, 12)))
